@@ -1,8 +1,8 @@
 /-
 C19 — the error-set generators: `make_error_list` (general theorem, all `n`, `d`) and
-`make_asymmetric_error_set` (specification + finite table).  Independent of the generated code data.
+`make_asymmetric_error_set` (general theorems, all `n`, `d`, `weight_z`).  Independent of the generated code data.
 -/
-import NumqiProofs.QecErrorList
+import NumqiProofs.QecAsym
 
 namespace Numqi.C19
 open Numqi Numqi.Qec
@@ -27,27 +27,42 @@ theorem errorList_operator (n d : Nat) (e : List (Nat × Nat)) (he : e ∈ error
 /-- the count that `make_error_list` must produce, e.g. 3675 for `(10, 4)` and 31713 for `(11, 5)` -/
 example : (errorList 10 4).length = 3675 ∧ (errorList 5 3).length = 105 := by decide +kernel
 
-/-- **Specification of `make_asymmetric_error_set(n, d, weight_z = p/q)`** (target, all `n d p q`):
-exactly the non-identity strings with `n_x + n_y + (p/q) n_z < d`, each once. -/
-def AsymmetricSetSpec.Statement : Prop :=
-  ∀ n d p q : Nat, 0 < p → 0 < q →
+/-- **`make_asymmetric_error_set(n, d, weight_z = p/q)` lists exactly the non-identity Pauli strings with
+`n_x + n_y + (p/q) n_z < d`, each once** — all `n`, `d`, every rational `weight_z = p/q > 0`
+(model of `hf_split_element` + the three nested ranges, after fix b728c8a). -/
+theorem asymmetric_set_spec (n d p q : Nat) (hp : 0 < p) :
     (∀ s ∈ (asymErrorSet n d p q).map (sparseToSyms n), s.length = n ∧ (∀ x ∈ s, x < 4) ∧ asymCond d p q s = true)
     ∧ (∀ s : List Nat, s.length = n → (∀ x ∈ s, x < 4) → asymCond d p q s = true →
         s ∈ (asymErrorSet n d p q).map (sparseToSyms n))
-    ∧ ((asymErrorSet n d p q).map (sparseToSyms n)).Nodup
+    ∧ ((asymErrorSet n d p q).map (sparseToSyms n)).Nodup :=
+  ⟨fun s hs => asym_sound n d p q hp s hs, fun s hl h4 hc => asym_complete n d p q hp s hl h4 hc, asym_nodup n d p q⟩
 
-/-- the instances of the specification checked by the kernel (`asymCheck`: the bit set of the generated
-strings, built while rejecting duplicates, equals the bit set of the strings satisfying the bound) -/
-def asymTable : List (Nat × Nat × Nat × Nat) :=
-  (List.range 5).flatMap (fun n => (List.range 5).flatMap fun d =>
-    [(1, 2), (1, 1), (3, 2), (2, 1), (3, 1), (3, 4), (5, 2), (1, 4)].map fun pq => (n, d, pq.1, pq.2))
-  ++ (List.range 5).flatMap (fun d => [(1, 2), (1, 1), (3, 2), (2, 1)].map fun pq => (5, d, pq.1, pq.2))
+/-- with `weight_z = 1` the asymmetric set is the symmetric one: same strings as `make_error_list` -/
+theorem asymmetric_one_eq_errorList (n d : Nat) (s : List Nat) :
+    s ∈ (asymErrorSet n d 1 1).map (sparseToSyms n) ↔ s ∈ (errorList n d).map (sparseToSyms n) := by
+  have hcond : ∀ t : List Nat, (∀ x ∈ t, x < 4) → (asymCond d 1 1 t = true ↔ 1 ≤ symWeight t ∧ symWeight t < d) := by
+    intro t ht
+    have hw : symWeight t = cnt 1 t + cnt 2 t + cnt 3 t := by
+      unfold symWeight cnt
+      induction t with
+      | nil => rfl
+      | cons a t ih =>
+        have ha := ht a (List.mem_cons_self ..)
+        have ih' := ih (fun x hx => ht x (List.mem_cons_of_mem _ hx))
+        simp only [List.filter_cons, List.countP_cons]
+        interval_cases a <;> simp [ih'] <;> omega
+    rw [asymCond_eq, hw]
+    simp only [Bool.and_eq_true, bne_iff_ne, ne_eq, decide_eq_true_eq, Nat.mul_one]
+    omega
+  constructor
+  · intro h
+    obtain ⟨a, b, c⟩ := asym_sound n d 1 1 (by norm_num) s h
+    exact errorList_complete n d s a b ((hcond s b).1 c).1 ((hcond s b).1 c).2
+  · intro h
+    obtain ⟨a, b, c1, c2⟩ := errorList_sound n d s h
+    exact asym_complete n d 1 1 (by norm_num) s a b ((hcond s b).2 ⟨c1, c2⟩)
 
-/-- **finite part of the specification**: all `n ≤ 4`, `d ≤ 4`, eight values of `weight_z`
-(1/4 … 3), and `n = 5` with four of them — including the cases `n < d`. -/
-theorem asymmetric_set_spec_partial :
-    asymTable.all (fun t => asymCheck t.1 t.2.1 t.2.2.1 t.2.2.2) = true := by decide +kernel
-
-example : asymTable.length = 220 := by decide
+/-- the case that was wrong before b728c8a: one qubit, distance 2 — X and Y are generated -/
+example : (asymErrorSet 1 2 1 1).map (sparseToSyms 1) = [[3], [2], [1]] := by decide
 
 end Numqi.C19
